@@ -32,6 +32,11 @@ impl TraitHandler for OrdEnumHandler {
 
         let mut arms_token_stream = proc_macro2::TokenStream::new();
 
+        // `Self::Variant { .. } => discriminant value,` for each variant
+        let mut discriminant_arms_token_stream = proc_macro2::TokenStream::new();
+        let mut discriminant_base = None;
+        let mut discriminant_offset = 0usize;
+
         let mut all_unit = true;
 
         if let Data::Enum(data) = &ast.data {
@@ -42,6 +47,28 @@ impl TraitHandler for OrdEnumHandler {
                 .build_from_attributes(&variant.attrs, traits)?;
 
                 let variant_ident = &variant.ident;
+
+                if let Some((_, exp)) = variant.discriminant.as_ref() {
+                    discriminant_base = Some(exp);
+                    discriminant_offset = 0;
+                }
+
+                let discriminant_offset_literal =
+                    proc_macro2::Literal::usize_unsuffixed(discriminant_offset);
+
+                discriminant_arms_token_stream.extend(match discriminant_base {
+                    Some(exp) if discriminant_offset == 0 => quote! {
+                        Self::#variant_ident { .. } => #exp,
+                    },
+                    Some(exp) => quote! {
+                        Self::#variant_ident { .. } => (#exp) + #discriminant_offset_literal,
+                    },
+                    None => quote! {
+                        Self::#variant_ident { .. } => #discriminant_offset_literal,
+                    },
+                });
+
+                discriminant_offset += 1;
 
                 let built_in_cmp: Path = syn::parse2(quote!(::core::cmp::Ord::cmp)).unwrap();
 
@@ -209,8 +236,14 @@ impl TraitHandler for OrdEnumHandler {
             cmp_token_stream.extend(quote!(::core::cmp::Ordering::Equal));
         } else {
             let discriminant_cmp = quote! {
-                unsafe {
-                    ::core::cmp::Ord::cmp(&*<*const _>::from(self).cast::<#discriminant_type>(), &*<*const _>::from(other).cast::<#discriminant_type>())
+                {
+                    let __educe_discriminant = |__educe_value: &Self| -> #discriminant_type {
+                        match __educe_value {
+                            #discriminant_arms_token_stream
+                        }
+                    };
+
+                    ::core::cmp::Ord::cmp(&__educe_discriminant(self), &__educe_discriminant(other))
                 }
             };
 
